@@ -319,6 +319,60 @@ def check_roundtrip(acc, pendulum, z, f, loc, fmt, full):
                      got, want, kf=kf)
 
 
+def kf_d_token(fmt, f, got):
+    """C08-d-token-numbering: format() numbers d from Sunday = 0, from_format() reads it from Monday = 0 and lets it
+    override the day: the result is the weekday numbered d (Monday = 0) in the Monday-based week of the date."""
+    import re
+    if not re.search(r"(?<![dD])d(?![dDo])", re.sub(r"\[[^\]]*\]", "", fmt)) or isinstance(got, str):
+        return False
+    n = calref.days_from_civil(*f[:3])
+    wd_mon0 = (n + 3) % 7                     # 1970-01-01 was a Thursday (Monday = 0 -> 3)
+    shown = (wd_mon0 + 1) % 7                 # what format('d') printed
+    target = n - wd_mon0 + shown              # that number read as Monday = 0, inside the same Monday-based week
+    return tuple(got[0][:3]) == tuple(calref.civil_from_days(target)) and tuple(got[0][3:]) == tuple(f[3:6]) + (got[0][6],)
+
+
+EXTRA_FMTS = ["X", "x", "YY-MM-DD HH:mm:ss.SSSSSS Z", "YYYY-MM-DD E HH:mm:ss.SSSSSS Z", "YYYY-MM-DD d HH:mm:ss.SSSSSS Z",
+              "YYYY-DDDD HH:mm:ss.SSSSSS ZZ", "YYYY-DDD HH:mm:ss.SSSSSS Z", "YYYY Q", "YYYY-MM-DD HH:mm:ss.SSSSSS ZZ [Q]Q",
+              "dddd, MMMM Do YYYY, h:mm:ss.SSSSSS A Z"]
+
+
+def check_extra(acc, pendulum, z, f):
+    """Round trips through the tokens the grammar does not produce: timestamps, 2-digit years, weekday numbers,
+    day of year, quarter."""
+    x, nat, inst, zname = mk(pendulum, z, f)
+    if z is None or obs.offset_s(x) % 60:
+        return
+    for fmt in EXTRA_FMTS:
+        case = {"kind": "xt", "z": z, "f": list(f), "fmt": fmt}
+        acc.c["evaluations"] += 1
+        acc.c["transitions"] += 2
+        try:
+            s = x.format(fmt)
+            r = pendulum.from_format(s, fmt)
+            got = (obs.fields(r), obs.offset_s(r))
+        except Exception as e:  # noqa: BLE001
+            got = f"raises {type(e).__name__}: {str(e)[:60]}"
+        fx = obs.fields(x)
+        if fmt == "X":
+            u = obs.fields(obs.utc_dt(pendulum, inst - inst % US))
+            want = (u, 0)
+        elif fmt == "x":
+            u = obs.fields(obs.utc_dt(pendulum, inst - inst % 1000))
+            want = (u, 0)
+        elif fmt == "YYYY Q":
+            want = ((fx[0], 3 * ((fx[1] - 1) // 3) + 1, 1, 0, 0, 0, 0), 0)
+        elif fmt.startswith("YY-"):
+            yy = fx[0] % 100
+            want = (((2000 if yy <= 68 else 1900) + yy,) + fx[1:], obs.offset_s(x))     # POSIX pivot, as strptime('%y')
+        else:
+            want = (fx, obs.offset_s(x))
+        if got != want:
+            kf = "C08-d-token-numbering" if kf_d_token(fmt, fx, got) else None
+            acc.mismatch("from_format", f"extra/{fmt.split(' ')[0] if len(fmt) < 8 else ('d-token' if ' d ' in fmt else fmt[:12])}",
+                         case, got, want, kf=kf)
+
+
 def kf_literal_format(fmt):
     """C08-from-format-literal: from_format() cannot parse a format that contains a [..] literal block or a
     backslash escape (format() renders them): the format is regex-escaped before the tokens are located."""
@@ -443,6 +497,8 @@ def run_shard(shard):
                                 with worker.guarded(acc, "from_format", {"kind": "rt", "z": z, "f": list(f), "loc": "en", "fmt": fmt}):
                                     check_roundtrip(acc, pendulum, z, f, "en", fmt, z is not None)
                                 acc.c["nontrivial"] += 1
+                        with worker.guarded(acc, "from_format", {"kind": "xt", "z": z, "f": list(f)}):
+                            check_extra(acc, pendulum, z, f)
         acc.sample({"roundtrip_all_hours": DATE_PARTS[0] + " " + TIME_PARTS[3] + ".SSSSSS Z", "hours": "0..23"})
     elif k == "locales":
         f = (2021, shard["month"], 7, 15, 4, 5, 123456)
@@ -465,6 +521,8 @@ def replay_case(case, acc):
         check_tokens(acc, pendulum, case["z"], tuple(case["f"]), case["loc"], pairs=("fmt" in case))
     elif k == "named":
         check_named(acc, pendulum, case["z"], tuple(case["f"]))
+    elif k == "xt":
+        check_extra(acc, pendulum, case["z"], tuple(case["f"]))
     elif k == "rt":
         for full in (True, False):
             check_roundtrip(acc, pendulum, case["z"], tuple(case["f"]), case["loc"], case["fmt"], full)
@@ -508,7 +566,7 @@ def evidence(m, tier, seed):
                 "documented tokens x 5 locales (thorough 27) + 16 named helpers + literal/escape formats; all 47^2 ordered "
                 "token pairs x 6 separators on 4 values x 2 locales; from_format(format()) over the grammar 10 date parts x "
                 "5 time parts x 5 fraction widths x {Z, ZZ, z, none}; every hour 0..23 x 2 minute/second settings x 5 time parts "
-                "x 9 zones; localized month/day names x 27 locales x 12 months x "
+                "x 9 zones, each also through X, x, YY, E, d, DDDD, DDD, Q and a long English format; localized month/day names x 27 locales x 12 months x "
                 "7 weekdays; defaults from an injected now; non-matching strings; non-trivial = round-trip formats and "
                 "token-pair batches",
         "exhaustive": True,
